@@ -23,6 +23,9 @@ import (
 type Cmd struct {
 	Text string         `json:"text"`
 	Out  []devsim.Token `json:"out"`
+	// per-operation options, used when Session.PerOp is set (APIs "each" and "channel")
+	Exact   bool `json:"exact,omitempty"`
+	NoStrip bool `json:"no_strip,omitempty"`
 }
 
 // Session is a complete case descriptor.
@@ -36,6 +39,7 @@ type Session struct {
 	API        string         `json:"api"` // each | multi | channel
 	Exact      bool           `json:"exact"`
 	Strip      bool           `json:"strip"`
+	PerOp      bool           `json:"per_op,omitempty"` // options differ from one operation to the next
 	WrapEvery  int            `json:"wrap_every,omitempty"`
 	Wrap       string         `json:"wrap,omitempty"`
 	ReadSize   int            `json:"read_size"`
@@ -182,6 +186,11 @@ func GenSession(r *rand.Rand, tier string) (Session, int) {
 	s.API = []string{"each", "multi", "channel"}[r.Intn(3)]
 	s.Exact = r.Intn(2) == 0
 	s.Strip = r.Intn(3) != 0
+	if s.API != "multi" && r.Intn(3) == 0 {
+		// every operation brings its own options: nothing of one operation's options may stick to the next
+		s.PerOp = true
+		s.Exact = false
+	}
 	s.ReturnChar = []string{"\n", "\n", "\r", "\r\n"}[r.Intn(4)]
 	s.ReadDelay = []int{0, 50, 250}[r.Intn(3)]
 	s.HoldSpace = strings.HasSuffix(s.Prompt, " ") && r.Intn(2) == 0
@@ -281,6 +290,14 @@ func GenSession(r *rand.Rand, tier string) (Session, int) {
 			s.Cmds[i].Text = c.Text[len(c.Text)-1:] // degrade to the 1-byte command
 		}
 	}
+	if s.PerOp {
+		for i, c := range s.Cmds {
+			// exact matching needs a verbatim echo: the device wraps when character WrapEvery+1 is typed
+			verbatim := s.WrapEvery == 0 || len(c.Text) <= s.WrapEvery
+			s.Cmds[i].Exact = verbatim && r.Intn(2) == 0
+			s.Cmds[i].NoStrip = r.Intn(2) == 0
+		}
+	}
 	return s, rejected
 }
 
@@ -375,7 +392,33 @@ func RunSession(s Session, h *Hooks) mon.Result {
 	if !s.Strip {
 		opo = append(opo, opoptions.WithNoStripPrompt())
 	}
+	opoFor := func(i int) []util.Option {
+		if !s.PerOp {
+			return opo
+		}
+		var o []util.Option
+		if s.Cmds[i].Exact {
+			o = append(o, opoptions.WithExactMatchInput())
+		}
+		if s.Cmds[i].NoStrip {
+			o = append(o, opoptions.WithNoStripPrompt())
+		}
+		return o
+	}
+	stripFor := func(i int) bool {
+		if s.PerOp {
+			return !s.Cmds[i].NoStrip
+		}
+		return s.Strip
+	}
 	got := make([]string, 0, len(s.Cmds))
+	// the byte slices the library handed out are kept WITHOUT copying, next to a copy taken at return
+	// time: what was returned for one command must not change when later commands run
+	var kept, keptCopy [][]byte
+	keep := func(b []byte) {
+		kept = append(kept, b)
+		keptCopy = append(keptCopy, append([]byte(nil), b...))
+	}
 	bad := func(key, f string, a ...interface{}) mon.Result {
 		if strings.HasPrefix(key, "c01/error:errTimeoutError") {
 			// "timed out" is a verdict only if the transport model had handed over everything the
@@ -404,6 +447,7 @@ func RunSession(s Session, h *Hooks) mon.Result {
 				for _, r := range m.Responses {
 					got = append(got, r.Result)
 					inputs = append(inputs, r.Input)
+					keep(r.RawResult)
 				}
 			}
 		} else {
@@ -413,6 +457,7 @@ func RunSession(s Session, h *Hooks) mon.Result {
 				for _, r := range m.Responses {
 					got = append(got, r.Result)
 					inputs = append(inputs, r.Input)
+					keep(r.RawResult)
 				}
 			}
 		}
@@ -425,28 +470,31 @@ func RunSession(s Session, h *Hooks) mon.Result {
 			}
 		}
 	case "channel":
-		for _, c := range cmds {
-			b, e := gd.Channel.SendInput(c, opo...)
+		for i, c := range cmds {
+			b, e := gd.Channel.SendInput(c, opoFor(i)...)
 			if e != nil {
 				return bad("c01/error:"+errClass(e), "SendInput(%q) returned %v", c, e)
 			}
 			got = append(got, string(b))
+			keep(b)
 		}
 	default:
-		for _, c := range cmds {
+		for i, c := range cmds {
 			var e error
 			var res string
 			if nd != nil {
-				r, e2 := nd.SendCommand(c, opo...)
+				r, e2 := nd.SendCommand(c, opoFor(i)...)
 				e = e2
 				if e2 == nil {
 					res = r.Result
+					keep(r.RawResult)
 				}
 			} else {
-				r, e2 := gd.SendCommand(c, opo...)
+				r, e2 := gd.SendCommand(c, opoFor(i)...)
 				e = e2
 				if e2 == nil {
 					res = r.Result
+					keep(r.RawResult)
 				}
 			}
 			if e != nil {
@@ -462,15 +510,21 @@ func RunSession(s Session, h *Hooks) mon.Result {
 		return bad("c01/count", "%d results for %d commands", len(got), len(s.Cmds))
 	}
 	for i, c := range s.Cmds {
-		want := devsim.RenderRef(c.Out, s.NL, s.Prompt, s.Strip)
+		want := devsim.RenderRef(c.Out, s.NL, s.Prompt, stripFor(i))
 		if got[i] != want {
 			k := "c01/result-mismatch"
 			for j, c2 := range s.Cmds {
-				if j != i && got[i] == devsim.RenderRef(c2.Out, s.NL, s.Prompt, s.Strip) && want != got[i] {
+				if j != i && got[i] == devsim.RenderRef(c2.Out, s.NL, s.Prompt, stripFor(i)) && want != got[i] {
 					k = "c01/result-of-other-command"
 				}
 			}
 			return bad(k, "command %d %q: result differs from reference\n got: %q\nwant: %q", i, c.Text, clip(got[i]), clip(want))
+		}
+	}
+	for i := range kept {
+		if !bytes.Equal(kept[i], keptCopy[i]) {
+			return bad("c01/result-changed-after-return", "the bytes returned for command %d changed while later commands ran\n at return: %q\n      now: %q",
+				i, clip(string(keptCopy[i])), clip(string(kept[i])))
 		}
 	}
 	// what the device received: exactly cmd RC cmd RC ...
@@ -505,8 +559,22 @@ func RunSession(s Session, h *Hooks) mon.Result {
 		return bad("c01/harness-conservation", "delivered bytes are not a prefix of the generated stream")
 	}
 	// landmarks
-	obs := map[string]int64{"sessions": 1, "exchanges": int64(len(cmds))}
+	obs := map[string]int64{"sessions": 1, "exchanges": int64(len(cmds)), "returned_slices_rechecked_at_end": int64(len(kept))}
 	var tags []string
+	if s.PerOp {
+		obs["per_operation_option_sessions"]++
+		for i := 1; i < len(s.Cmds); i++ {
+			if s.Cmds[i-1].Exact && !s.Cmds[i].Exact {
+				obs["exact_then_fuzzy"]++
+				if s.WrapEvery > 0 && len(s.Cmds[i].Text) > s.WrapEvery {
+					obs["exact_then_fuzzy_with_wrapped_echo"]++
+				}
+			}
+			if s.Cmds[i-1].NoStrip != s.Cmds[i].NoStrip {
+				obs["strip_setting_changes"]++
+			}
+		}
+	}
 	off := 0
 	nontrivial := false
 	for _, e := range log {
@@ -536,7 +604,7 @@ func RunSession(s Session, h *Hooks) mon.Result {
 	}
 	cfg := fmt.Sprintf("drv=%s api=%s exact=%v strip=%v rs=%d seg=%s/%d rd=%d rc=%q wrap=%v", s.Driver, s.API, s.Exact, s.Strip,
 		s.ReadSize, s.Seg.Mode, s.Seg.Size, s.ReadDelay, s.ReturnChar, s.WrapEvery > 0)
-	tags = append(tags, "drv="+s.Driver, "api="+s.API, fmt.Sprintf("exact=%v", s.Exact), fmt.Sprintf("strip=%v", s.Strip),
+	tags = append(tags, "drv="+s.Driver, "api="+s.API, fmt.Sprintf("exact=%v", s.Exact), fmt.Sprintf("strip=%v", s.Strip), fmt.Sprintf("per_op_options=%v", s.PerOp),
 		fmt.Sprintf("readsize=%d", s.ReadSize), "seg="+s.Seg.Mode, fmt.Sprintf("readdelay=%dus", s.ReadDelay),
 		fmt.Sprintf("returnchar=%q", s.ReturnChar), fmt.Sprintf("wrap=%q", s.Wrap), fmt.Sprintf("psd_is_minimal=%v", s.PSD < 1000))
 	return mon.Result{Verdict: mon.Held, NonTrivial: nontrivial && len(cmds) >= 2, Obs: obs, Tags: tags,
@@ -579,7 +647,7 @@ func init() {
 		ID:    "C01",
 		Level: "exploration",
 		Rule: "PRNG-generated sessions (1-8 commands, outputs 0-180 lines with CRs, escape sequences, trailing spaces, blank lines; echo verbatim or wrapped; " +
-			"exact/fuzzy; strip on/off; read size 1..8192; search depth from longest line+prompt+2; return char; read delay; segmentation policy). " +
+			"exact/fuzzy; strip on/off, per session or changing from one operation to the next; returned byte slices re-compared at the end of the session; read size 1..8192; search depth from longest line+prompt+2; return char; read delay; segmentation policy). " +
 			"Non-trivial = >=2 commands and a transport read boundary strictly inside an echo or a prompt. Distinct = distinct descriptor hash.",
 		Assumptions: []string{
 			"device echoes input and answers output+prompt (causal devsim.CLI model)",
